@@ -477,7 +477,7 @@ def run_ipv6(ctx):
             continue
         canon_addr = socket.inet_ntop(socket.AF_INET6, packed)
         for sp in spellings(r, packed):
-            for zone in (None, "eth0", "Eth_1", "25"):
+            for zone in (None, "eth0", "Eth_1", "25", "Eth%41", "a%7e.%C3%A9"):  # RFC 6874: ZoneID = 1*( unreserved / pct-encoded ), kept verbatim
                 host = sp + ("%" + zone if zone else "")
                 cls = "ipv6zone" if zone else "ipv6"
                 for route, fn in (("ctor", lambda: URL(f"http://u:p@[{host}]:8080/a/../b?q#f")), ("ctor_plain", lambda: URL(f"//[{host}]")),
